@@ -735,14 +735,15 @@ def match_model(ctx, pattern, s, label):
         if g is not None:
             groups[g] = piece
             ctx.ghost.setdefault("atoms", {})[piece.get_id()] = run
-        if not z3.is_string_value(piece) and not any(a[0].neg for a in run):
-            # consequences of the membership, computed on the concrete classes (the solvers do not find them by themselves): the piece holds none of
-            # the pattern's literal characters that its classes do not admit
-            admits = set().union(*[a[0].chars for a in run])
-            for sep in sorted({next(iter(a[0].chars)) for a in atoms if a[1] == a[2] == 1 and not a[0].neg and len(a[0].chars) == 1} - admits):
+        nxt = atoms[i + len(run)] if i + len(run) < len(atoms) else None
+        if not z3.is_string_value(piece) and not any(a[0].neg for a in run) and nxt is not None and is_lit(nxt):
+            # a consequence of the membership, computed on the concrete classes (the solvers do not find it by themselves): the piece does not hold
+            # the literal character that follows it in the pattern (the fragment check above made sure that no class of the piece admits it)
+            sep = next(iter(nxt[0].chars))
+            if sep not in set().union(*[a[0].chars for a in run]):
                 ctx.assume(z3.Not(z3.Contains(piece, z3.StringVal(sep))))
         pieces.append(piece)
-        i = j
+        i = i + len(run)
     matched = z3.Concat(*pieces) if len(pieces) > 1 else (pieces[0] if pieces else z3.StringVal(""))
     if anchored_end:
         nl = ctx.fresh("newline-before-$", S)
@@ -769,7 +770,8 @@ def match_model(ctx, pattern, s, label):
 
     m = Rec("Match", methods={"__getitem__": item, "group": item, "groupdict": lambda c, s_, a, k: {n: groups[i] for n, i in names.items()},
                               "groups": lambda c, s_, a, k: tuple(groups[i] for i in range(1, n_groups + 1))})
-    m.attrs["$groups"], m.attrs["$tail"], m.attrs["$pattern"] = groups, groups.get("tail"), pattern
+    m.attrs["$groups"], m.attrs["$tail"], m.attrs["$pattern"], m.attrs["$pieces"] = groups, groups.get("tail"), pattern, pieces
+    m.attrs["$end-classes"] = [cs.lang() for cs in ends]
     ctx.ghost.setdefault("matches", []).append(m)
     return m
 
@@ -1078,7 +1080,9 @@ def _sliced(ctx, which):
         return any(m in s_ for m in ARITH_MARKS)
     def is_text_eq(h):
         return z3.is_eq(h) or (z3.is_and(h) and all(z3.is_eq(c) for c in h.children()))
-    if which == "strings":
+    if which == "cut":   # for the equalities between pieces and parts: the positive facts about the texts only
+        ob.hyps = [h for h in ob.hyps if not is_arith(h) and not (z3.is_not(h) and h.arg(0).decl().kind() == z3.Z3_OP_SEQ_IN_RE)]
+    elif which == "strings":
         ob.hyps = [h for h in ob.hyps if not is_arith(h)]
     else:
         ob.hyps = [h for h in ob.hyps if is_arith(h) or (is_text_eq(h) and "str.++" not in h.sexpr().split(")")[0])]
@@ -1123,6 +1127,7 @@ def td_setup(ctx):
             total = total + D * US_DAY
         value = z3.Concat(*parts)
         want = total
+        ctx.ghost["parts"] = parts
         if not with_days:
             # `"day" in value` is false here: proved once, then used, so that the branch is not explored
             ctx.oblige("lemma", "H:MM:SS[.UUUUUU]-does-not-contain-'day'" + f"[{kind}]", z3.Not(z3.Contains(value, p("day"))), strings=True)
@@ -1139,22 +1144,49 @@ def _td_cut(ctx, d, tag):
     if not ms:
         return
     t, m = d["texts"], ms[-1]
+    d = dict(d, parts=ctx.ghost.get("parts", []))
     g, names = m.attrs["$groups"], m.methods["groupdict"](ctx, m, (), {})
     p = z3.StringVal
     for x, ch in ((t["days"], " "), (t["hours"], ":"), (t["minutes"], ":"), (t["seconds"], "."), (t["seconds"], ":")):
         lang = INT_TXT if ch == " " else DIGITS
         ctx.assume(z3.Implies(z3.InRe(x, lang), z3.Not(z3.Contains(x, p(ch)))))   # instances of the lemmas proved in setup
     with_days, with_us = d["kind"].startswith("D days"), d["kind"].endswith("UUUUUU")
-    for nm in (["days"] if with_days else []) + ["hours", "minutes"]:
-        if nm in names:
-            ctx.oblige("lemma", f"the-group-{nm}-is-the-text-written-for-{nm}" + tag, names[nm] == t[nm], strings=True)
-            _sliced(ctx, "strings")
-            ctx.assume(names[nm] == t[nm])
-    sec = z3.Concat(t["seconds"], p("."), t["us"]) if with_us else t["seconds"]
-    if "seconds" in names and m.attrs["$tail"] is not None:
-        ctx.oblige("lemma", "the-group-seconds-is-SS[.UUUUUU]-and-nothing-is-left-unmatched" + tag, z3.And(names["seconds"] == sec, m.attrs["$tail"] == p("")), strings=True)
-        _sliced(ctx, "strings")
-        ctx.assume(z3.And(names["seconds"] == sec, m.attrs["$tail"] == p("")))
+    parts, pieces = d["parts"], m.attrs["$pieces"]
+    for k, piece in enumerate(pieces):
+        if k >= len(parts):
+            break
+        if k == len(pieces) - 1:
+            if m.attrs["$tail"] is None:
+                break
+            rest = z3.Concat(*parts[k:]) if len(parts) - k > 1 else parts[k]
+            tail_ = m.attrs["$tail"]
+            if len(m.attrs["$end-classes"]) == 1:
+                # stepping stones for the solvers: what is left of the text is the last piece plus the tail; it consists of characters of the class
+                # the last repeat takes; so does the tail then (a suffix: proved for arbitrary strings, without hypotheses) - but a non-empty tail
+                # begins with a character outside that class
+                cstar = z3.Star(m.attrs["$end-classes"][0])
+                f = rest == z3.Concat(piece, tail_)
+                ctx.oblige("lemma", "what-is-left-of-the-text-is-the-last-piece-and-the-unmatched-tail" + tag, f, strings=True)
+                _sliced(ctx, "cut")
+                ctx.assume(f)
+                ctx.oblige("lemma", "what-is-left-of-the-text-consists-of-characters-the-last-repeat-takes" + tag, z3.InRe(rest, cstar))
+                ctx.obligations[-1].hyps = [h for h in ctx.obligations[-1].hyps if "!" not in h.sexpr() and not any(m_ in h.sexpr() for m_ in ARITH_MARKS)]   # the scenario's own facts suffice
+                ctx.assume(z3.InRe(rest, cstar))
+                x0, y0, z0 = ctx.fresh("any prefix", S), ctx.fresh("any suffix", S), ctx.fresh("any text", S)
+                ctx.oblige("lemma", "a-suffix-of-a-text-over-a-character-class-is-a-text-over-that-class" + tag, z3.Implies(z3.And(z0 == z3.Concat(x0, y0), z3.InRe(z0, cstar)), z3.InRe(y0, cstar)), strings=True)
+                ctx.obligations[-1].hyps = []
+                ctx.assume(z3.InRe(tail_, cstar))   # (the instance for: what is left, the last piece, the tail - with the two facts just proved)
+            goal = z3.And(piece == rest, m.attrs["$tail"] == p(""))
+            ctx.oblige("lemma", "the-last-piece-matched-is-SS[.UUUUUU]-and-nothing-is-left-unmatched" + tag, goal, strings=True)
+        elif z3.is_string_value(piece):
+            if not (z3.is_string_value(parts[k]) and parts[k].as_string() == piece.as_string()):
+                break
+            continue
+        else:
+            goal = piece == parts[k]
+            ctx.oblige("lemma", f"piece-{k + 1}-of-the-match-is-part-{k + 1}-of-the-text-str(timedelta)-wrote" + tag, goal, strings=True)
+        _sliced(ctx, "cut")
+        ctx.assume(goal)
     for x, shape, a, b, r in ctx.ghost.get("floats", []):
         if shape == "frac" and with_us:
             ctx.oblige("lemma", "float()-saw-SS-before-and-UUUUUU-after-the-dot" + tag, z3.And(a == t["seconds"], b == t["us"]), strings=True)
@@ -1212,6 +1244,14 @@ TD_TRUSTED = ["re.match(pattern, s): membership in the pattern's language (the p
               "str(int) is a text in -?[0-9]+ spelling the integer; 'day' in value / isinstance as in Python"]
 
 
+# counter-examples the solvers do not find by themselves (the driver's refutation pass adds one of them to an undecided obligation; the fresh names are
+# those of the four accepting paths of the any-string scenario; on other paths the hint does not parse and is ignored)
+TD_HINTS = ('(assert (= value "9999999999 days, 0:00:00")) (assert (= group1!1 "9999999999")) (assert (= group2!3 "0")) (assert (= group3!4 "00")) (assert (= group4!5 "00"))',
+            '(assert (= value "9999999999 days, 0:00:00.5")) (assert (= group1!1 "9999999999")) (assert (= group2!3 "0")) (assert (= group3!4 "00")) (assert (= group4!5 "00.5"))',
+            '(assert (= value "99999999999999999:00:00")) (assert (= group1!1 "99999999999999999")) (assert (= group2!2 "00")) (assert (= group3!3 "00"))',
+            '(assert (= value "99999999999999999:00:00.5")) (assert (= group1!1 "99999999999999999")) (assert (= group2!2 "00")) (assert (= group3!3 "00.5"))')
+
+
 def td_raises(ctx, st, exc):
     d = st.data
     kind = d["kind"]
@@ -1255,7 +1295,7 @@ def units(prop):
                       "nested class statement: the class body's bindings become the class attributes (engine)", "sorted()/str.join evaluated by CPython on the concrete modes of the scenario"]),
         Unit(prop, T + "range_serializer", rs_setup, rs_post, _no_exc, trusted=["f-string formatting of an int is str(int): the decimal text, '-' for negatives (SMT-LIB str.from_int)", "range objects have step != 0"]),
         Unit(prop, T + "range_deserializer", rd_setup, rd_post, rd_raises, expect_cover=("return", "raise:ValueError", "raise:AttributeError"), trusted=RD_TRUSTED),
-        Unit(prop, T + "timedelta_deserializer", td_setup, td_post, td_raises, expect_cover=("return", "raise:ValueError"), trusted=TD_TRUSTED),
+        Unit(prop, T + "timedelta_deserializer", td_setup, td_post, td_raises, expect_cover=("return", "raise:ValueError"), trusted=TD_TRUSTED, refute_hints=TD_HINTS),
         Unit(prop, U + "object_path_serializer", op_setup, op_post, op_raises, expect_cover=("return", "raise:ValueError"), trusted=["get_import_path / import_object: their own units (C14); they raise ValueError / AttributeError / ImportError"]),
         Unit(prop, U + "get_module_var_path", mv_setup, mv_post, _no_exc, trusted=["import_module returns the module; vars(module) is its namespace, iterated in definition order"]),
     ]
